@@ -27,6 +27,7 @@ type Gen struct {
 	Exotic       float64 // probability of the keywords swagger 2.0 does not support (anyOf, oneOf, not, patternProperties, nested definitions, additionalItems)
 	SimpleRefs   bool    // allow $ref inside simple-schema items / headers (invalid swagger, analyzable)
 	PathItemRefs bool
+	DeepChains   bool // plant a 70-level schema chain now and then (analyze stream only)
 
 	nonBodySchema bool
 	defNames      []string
@@ -416,6 +417,11 @@ func (g *Gen) ParamOrRef() M {
 			return M{"$ref": "#/parameters/nope"}
 		default:
 			g.hit("paramref:nonparam")
+			if g.p(0.3) {
+				// a non-parameter that looks like one: an apiKey security scheme carries "name" and "in"
+				g.hit("paramref:nonparam-lookalike")
+				return M{"$ref": "#/securityDefinitions/apiKey"}
+			}
 			if len(g.defNames) > 0 {
 				return M{"$ref": "#/definitions/" + jsonPtrEscape(g.pick(g.defNames))}
 			}
@@ -617,6 +623,10 @@ func (g *Gen) Operation(ids *idPool, dupIDs bool) M {
 			rs[g.pick([]string{"200", "201", "204", "400", "404", "500"})] = g.ResponseOrRef()
 			g.hit("resp:code")
 		}
+		if g.p(0.06) {
+			rs["0"] = g.ResponseOrRef()
+			g.hit("resp:code-zero")
+		}
 		op["responses"] = rs
 	} else {
 		g.hit("op:noresponses")
@@ -653,6 +663,28 @@ func (g *Gen) Doc(o DocOpts) M {
 			defs[nm] = g.Schema(g.MaxDepth)
 		}
 		d["definitions"] = defs
+	}
+	if g.DeepChains && g.p(0.04) {
+		// a schema nested far deeper than any fixture (70 hops), with a pattern, an enum and a $ref at the bottom
+		leaf := M{"type": "string", "pattern": g.pick(patterns), "enum": g.enumVals()}
+		var cur M = M{"type": "object", "properties": M{"leaf": leaf, "r": M{"$ref": "#/definitions/deepChain"}}}
+		for i := 0; i < 70; i++ {
+			switch i % 3 {
+			case 0:
+				cur = M{"type": "array", "items": cur}
+			case 1:
+				cur = M{"type": "object", "properties": M{"n": cur}}
+			default:
+				cur = M{"type": "object", "additionalProperties": cur}
+			}
+		}
+		defs, _ := d["definitions"].(M)
+		if defs == nil {
+			defs = M{}
+			d["definitions"] = defs
+		}
+		defs["deepChain"] = cur
+		g.hit("schema:deep-chain-70")
 	}
 	if len(g.paramNames) > 0 {
 		ps := M{}
@@ -709,6 +741,27 @@ func (g *Gen) Doc(o DocOpts) M {
 		if g.PathItemRefs && g.p(0.1) {
 			pi["$ref"] = "#/x-shared/pathItem" + fmt.Sprint(g.n(2))
 			g.hit("pathitem:ref")
+			if g.p(0.5) {
+				// the target exists and holds $refs of its own: they are not places of the paths section (the analyzer
+				// does not follow a path item's $ref), so none of them may be reported
+				xs, _ := d["x-shared"].(M)
+				if xs == nil {
+					xs = M{}
+					d["x-shared"] = xs
+				}
+				for _, k := range []string{"pathItem0", "pathItem1"} {
+					xs[k] = M{"get": M{"parameters": []any{g.ParamOrRef()}, "responses": M{"200": g.ResponseOrRef()}}}
+				}
+				g.hit("pathitem:ref-resolvable-extension")
+			} else if len(paths) > 0 && g.p(0.5) {
+				others := make([]string, 0, len(paths))
+				for other := range paths {
+					others = append(others, other)
+				}
+				sort.Strings(others)
+				pi["$ref"] = "#/paths/" + jsonPtrEscape(others[g.n(len(others))])
+				g.hit("pathitem:ref-to-other-path")
+			}
 		}
 		for _, m := range allMethods {
 			if g.p(0.3) {
